@@ -11,7 +11,10 @@ never cacheable (C20.e).
 Added in round 4: images derived from an uncacheable image stay uncacheable (C20.k); a store
 replaces the whole row, last_modified included (C20.l, shared C05.e); the compact cache records the
 size of a loaded tile when metadata is asked for (C20.m); a refreshed tile does not keep the time
-stamp and size of the tile it replaces (C20.n)."""
+stamp and size of the tile it replaces (C20.n).
+Added in round 5: only two digit years are expanded (C20.o); public headers only for cacheable WMS-C
+results (C20.p); the fill image is not post-processed (C20.q); late tiles are loaded with metadata
+(C20.r)."""
 import ast
 
 from ..engine import rule
